@@ -1,7 +1,7 @@
 (** C03 — Ill-formed programs are rejected with a located syntax error.
     Token level (see C02 for the model and its tie to the code): what the parser rejects is not a
     sentence of the grammar, and whatever it accepts is one, with every token accounted for. *)
-From GoSh Require Import Base.Bytes Parse.Skel Parse.Grammar Parse.GrammarSpec Parse.GrammarSound Parse.GrammarComplete.
+From GoSh Require Import Base.Bytes Parse.Skel Parse.Grammar Parse.GrammarSpec Parse.GrammarSound Parse.GrammarComplete Parse.GrammarLoc.
 
 (** Nothing ill-formed is accepted: acceptance implies a derivation that uses all the tokens received,
     none dropped, none re-associated (the skeleton is the derivation's). *)
@@ -15,3 +15,10 @@ Theorem C03_rejected_is_not_a_sentence :
   forall ts hs e, parse_tokens ts hs = PErr e -> forall sk hs', ~ G_program ts hs sk hs'.
 Proof. exact parse_tokens_rejects. Qed.
 Print Assumptions C03_rejected_is_not_a_sentence.
+
+(** A located syntax error designates one of the tokens received (never a position outside the input);
+    the harness translates the token to its line:column and compares with the reported position. *)
+Theorem C03_error_designates_a_received_token :
+  forall ts hs i, parse_tokens ts hs = PErr (Some i) -> exists t, In t ts /\ tidx t = i.
+Proof. exact parse_tokens_error_located. Qed.
+Print Assumptions C03_error_designates_a_received_token.
